@@ -264,7 +264,24 @@ def sizing(rep, prog, rule):
                    % (fmt(a[1]), fmt(a[2])))
         else:
             bp = band_pattern(f, sym)
-            if bp == "other":
+            cu = [c for c in f.calls() if (c.name or "").endswith("crop_unchecked")]
+            same_box = False
+            for c_ in cu:
+                if len(c_.args) >= 2:
+                    be = sym.operand(c_.args[1], (c_.bb, "term"))
+                    while isinstance(be, tuple) and be and be[0] in ("copy", "ref", "deref"):
+                        be = be[1]
+                    if isinstance(be, tuple) and be and be[0] in ("call", "callat") and \
+                            (be[1] if be[0] == "call" else be[2]) == "crop_box":
+                        same_box = True
+            if bp == "other" and same_box:
+                rep.bad(rule, "premultiply|box-not-translated", s.at,
+                        "the premultiplied scratch image is (%s, %s), not the size of the source view, but "
+                        "crop_unchecked wraps it with the source's own crop box: the rows / columns that were "
+                        "cut off are skipped a second time (and crop_unchecked's contract -- the box lies "
+                        "inside the image -- no longer follows from the validation of the source)" % (
+                            fmt(a[1])[:50], fmt(a[2])[:50]))
+            elif bp == "other":
                 rep.unk(rule, "premultiply", s.at, "only a band of the source is premultiplied; "
                         "whether it covers everything the kernels read is not decided")
             else:
